@@ -158,7 +158,7 @@ def explain(devrel, init_pred, tokens, same):
 
 def is_init(s, cfgrec=None):
     return s["phase"] in ("greet", "http") and s["method"] == "none" and s["exec"] == "" and s["assoc"] == "none" \
-        and not s["sentValid"] and (cfgrec is None or s["cfg"] == cfgrec)
+        and not s["sentValid"] and s["nconn"] == 1 and not s["warm"] and (cfgrec is None or s["cfg"] == cfgrec)
 
 
 def edges_covered(paths, edges):
@@ -185,11 +185,12 @@ def hs_programs(paths, attacks=()):
     return out
 
 
-def hs_replay(ctx, variant, programs, name):
+def hs_replay(ctx, variant, programs, name, dictionary=""):
+    """dictionary: "" | "socks5" (string literals of internal/socks5 as credentials) | "all" (+ agent, config)"""
     inp = os.path.join(ctx.work, name + ".json")
     vf.write_json(inp, {"variant": variant, "programs": programs})
-    r = ctx.gotest("agent", [COMMON, "agent/socks5auth_test.go"], "^TestZZVSocks5AuthReplay$", env={"ZZV_IN": inp},
-                   timeout=1500)
+    r = ctx.gotest("agent", [COMMON, "agent/socks5auth_test.go"], "^TestZZVSocks5AuthReplay$",
+                   env={"ZZV_IN": inp, "ZZV_DICT": dictionary}, timeout=1500)
     summ = r.of("summary")
     if not summ:
         raise vf.Infra("handshake replay harness produced no summary:\n" + r.out[-3000:])
